@@ -85,6 +85,14 @@ pub fn run(ctx: &mut Ctx) {
             bytes = big;
             hist.add("input:large-file-multibyte-at-block-boundary");
         }
+        if kind == "valid" && i % 16 == 8 {
+            // a document type declaration in front (HTML5-style, external subset, internal subset)
+            let dt = *rng.pick(&["<!DOCTYPE html>\n", "<!doctype html>", "<!DOCTYPE html PUBLIC \"-//W3C//DTD XHTML 1.0 Strict//EN\" \"http://www.w3.org/TR/xhtml1/DTD/xhtml1-strict.dtd\">\n", "<!DOCTYPE r SYSTEM \"r.dtd\">", "<!DOCTYPE r [<!ENTITY e \"v\"><!ELEMENT r ANY>]>\n", "\u{feff}<!DOCTYPE html>\n"]);
+            let mut with: Vec<u8> = dt.as_bytes().to_vec();
+            with.extend_from_slice(&bytes);
+            bytes = with;
+            hist.add("input:doctype-in-front");
+        }
         match kind {
             "malformed" => {
                 let bad: [&[u8]; 5] = [b"<a><b></a>", b"<a x=1/>", b"<a x='1' x='2'/>", b"<a></b>", b"<a><!-- "];
